@@ -446,19 +446,35 @@ func (c *Crew) toMachines(ctx context.Context, msg interface{}) ([]string, error
 			}
 			return []string{vv}, nil
 		case []string:
-			return vv, nil
+			return distinct(vv), nil
 		case []interface{}:
-			mids := make([]string, len(vv))
-			for i, x := range vv {
+			// Only strings name machines, and a machine named
+			// twice should still see the message once.  (A
+			// non-string used to become the machine id "".)
+			mids := make([]string, 0, len(vv))
+			for _, x := range vv {
 				switch vv := x.(type) {
 				case string:
-					mids[i] = vv
+					mids = append(mids, vv)
 				}
 			}
-			return mids, nil
+			return distinct(mids), nil
 		}
 	}
 	return c.allMachines(), nil
+}
+
+// distinct removes duplicates (while preserving order).
+func distinct(mids []string) []string {
+	acc := make([]string, 0, len(mids))
+	seen := make(map[string]bool, len(mids))
+	for _, mid := range mids {
+		if !seen[mid] {
+			seen[mid] = true
+			acc = append(acc, mid)
+		}
+	}
+	return acc
 }
 
 // RunMachines presents the message to the machines returned by
